@@ -347,7 +347,8 @@ inductive Arith
   | dollar (braces : Bool) (name : Bytes)  -- Word [$name] / Word [${name}]
   | paren (x : Arith)
   | unary (op : Nat) (post : Bool) (x : Arith)
-  | binary (op : Nat) (x y : Arith)
+  | binary (op : Nat) (x y : Arith)        -- any BinaryArithm except the `?:` pair
+  | tern (c a b : Arith)                   -- BinaryArithm{TernQuest, c, BinaryArithm{TernColon, a, b}}
   deriving Repr, DecidableEq, Inhabited
 
 namespace Arith
@@ -369,6 +370,7 @@ def top : Arith → Arith
   | dollar b n => inline (dollar b n)
   | unary op p x => unary op p (walk x)
   | binary op x y => binary op (walkInl x) (walkInl y)
+  | tern c a b => tern (walkInl c) (walkInl a) (walkInl b)
 /-- The expression is visited as a node (its parent did not rewrite it). -/
 def walk : Arith → Arith
   | paren x => paren (top x)
@@ -376,6 +378,7 @@ def walk : Arith → Arith
   | dollar b n => dollar b n
   | unary op p x => unary op p (walk x)
   | binary op x y => binary op (walkInl x) (walkInl y)
+  | tern c a b => tern (walkInl c) (walkInl a) (walkInl b)
 /-- An operand of a `BinaryArithm`: inlined, then visited. -/
 def walkInl : Arith → Arith
   | paren x => paren (top x)
@@ -383,6 +386,7 @@ def walkInl : Arith → Arith
   | dollar b n => inline (dollar b n)
   | unary op p x => unary op p (walk x)
   | binary op x y => binary op (walkInl x) (walkInl y)
+  | tern c a b => tern (walkInl c) (walkInl a) (walkInl b)
 end
 
 end Arith
@@ -395,8 +399,6 @@ structure Prims where
   un : Nat → Int → Option Int
   assignOp : Nat → Option (Int → Int → Option Int)   -- `=`, `+=`, …: old value, argument ↦ new value
   incDec : Nat → Option Int                          -- `++` ↦ 1, `--` ↦ -1
-  isQuest : Nat → Bool
-  isColon : Nat → Bool
   isAnd : Nat → Bool
   isOr : Nat → Bool
 
@@ -452,16 +454,7 @@ def evalI (P : Prims) : Env → Arith → Option (Int × Env)
         | none => none
       | _ => none
     | none =>
-      if P.isQuest op then
-        match y with
-        | .binary op2 y1 y2 =>
-          if P.isColon op2 then
-            match evalI P env x with
-            | some (c, env') => if c ≠ 0 then evalI P env' y1 else evalI P env' y2
-            | none => none
-          else none
-        | _ => none
-      else if P.isAnd op then
+      if P.isAnd op then
         match evalI P env x with
         | some (l, env') =>
           if l = 0 then some (0, env')
@@ -485,6 +478,28 @@ def evalI (P : Prims) : Env → Arith → Option (Int × Env)
           | none => none
         | none => none
 
+  | env, .tern c a b =>
+    match evalI P env c with
+    | some (v, env') => if v ≠ 0 then evalI P env' a else evalI P env' b
+    | none => none
+
+/-- Facts about Go's `atoi` / `strconv.FormatInt` the arithmetic theorems rely on: a valid name is
+    not a number (`atoi` gives 0 as for the empty string), a formatted integer is not a name. -/
+structure Prims.Lawful (P : Prims) : Prop where
+  atoi_name : ∀ n, validName n = true → P.atoi n = P.atoi []
+  fmt_not_name : ∀ k, validName (P.fmt k) = false
+
+/-- No variable holds a string that is itself a valid name (true when variables hold integers). -/
+def Env.NoNames (env : Env) : Prop := ∀ m, validName (env m) = false
+
+def Arith.size : Arith → Nat
+  | .lit _ => 1
+  | .dollar _ _ => 1
+  | .paren x => x.size + 1
+  | .unary _ _ x => x.size + 1
+  | .binary _ x y => x.size + y.size + 1
+  | .tern c a b => c.size + a.size + b.size + 1
+
 /-- What the parser guarantees (`isArithName`): assignments and `++`/`--` apply to a bare name. -/
 def Arith.WF (P : Prims) : Arith → Prop
   | .lit _ => True
@@ -492,6 +507,7 @@ def Arith.WF (P : Prims) : Arith → Prop
   | .paren x => x.WF P
   | .unary op _ x => ((P.incDec op).isSome → ∃ n, x = .lit n) ∧ x.WF P
   | .binary op x y => ((P.assignOp op).isSome → ∃ n, x = .lit n) ∧ x.WF P ∧ y.WF P
+  | .tern c a b => c.WF P ∧ a.WF P ∧ b.WF P
 
 /-- bash, with integer-valued variables: every `$name` is replaced by the value the variable has
     *before* the expression is evaluated (`env0`), bare names are read when evaluated (`env`). -/
@@ -529,16 +545,7 @@ def evalB (P : Prims) (env0 : IEnv) : IEnv → Arith → Option (Int × IEnv)
         | none => none
       | _ => none
     | none =>
-      if P.isQuest op then
-        match y with
-        | .binary op2 y1 y2 =>
-          if P.isColon op2 then
-            match evalB P env0 env x with
-            | some (c, env') => if c ≠ 0 then evalB P env0 env' y1 else evalB P env0 env' y2
-            | none => none
-          else none
-        | _ => none
-      else if P.isAnd op then
+      if P.isAnd op then
         match evalB P env0 env x with
         | some (l, env') =>
           if l = 0 then some (0, env')
@@ -562,6 +569,11 @@ def evalB (P : Prims) (env0 : IEnv) : IEnv → Arith → Option (Int × IEnv)
           | none => none
         | none => none
 
+  | env, .tern c a b =>
+    match evalB P env0 env c with
+    | some (v, env') => if v ≠ 0 then evalB P env0 env' a else evalB P env0 env' b
+    | none => none
+
 def evalBash (P : Prims) (env : IEnv) (e : Arith) : Option (Int × IEnv) := evalB P env env e
 
 /-- Names occurring as `$name` / `${name}` operands. -/
@@ -571,6 +583,7 @@ def Arith.dollars : Arith → List Bytes
   | .paren x => x.dollars
   | .unary _ _ x => x.dollars
   | .binary _ x y => x.dollars ++ y.dollars
+  | .tern c a b => c.dollars ++ a.dollars ++ b.dollars
 
 /-- Names assigned by `=`, `op=`, `++`, `--`. -/
 def Arith.assigned (P : Prims) : Arith → List Bytes
@@ -585,6 +598,7 @@ def Arith.assigned (P : Prims) : Arith → List Bytes
     (match P.assignOp op, x with
      | some _, .lit n => [n]
      | _, _ => []) ++ x.assigned P ++ y.assigned P
+  | .tern c a b => c.assigned P ++ a.assigned P ++ b.assigned P
 
 /-! ### B3. `[[ ]]` expressions -/
 
@@ -595,11 +609,15 @@ inductive TWord
   | other (w : Nat)      -- any other word
   deriving Repr, DecidableEq, Inhabited
 
+/-- `[[ ]]` expressions as the parser builds them: the operand of `!`, `&&`, `||` and of parentheses
+    is an expression, the operands of every other operator are words. -/
 inductive Test
   | word (w : TWord)
   | paren (x : Test)
-  | unary (op : Nat) (x : Test)
-  | binary (op : Nat) (x y : Test)
+  | not (x : Test)                    -- UnaryTest{TsNot}
+  | un (op : Nat) (w : TWord)         -- UnaryTest{op ≠ TsNot}: -z -n -e -v …
+  | logic (isAnd : Bool) (x y : Test) -- BinaryTest{AndTest / OrTest}
+  | bin (op : Nat) (a b : TWord)      -- BinaryTest{any other op}: == != = =~ -eq < …
   deriving Repr, DecidableEq, Inhabited
 
 namespace Test
@@ -608,24 +626,25 @@ def strip : Test → Test
   | paren x => strip x
   | e => e
 
+def unqW : TWord → TWord
+  | .quoted p => .bare p
+  | w => w
+
+/-- `unquoteParams` on an operand that may be a word. -/
 def unquote : Test → Test
-  | word (.quoted p) => word (.bare p)
+  | word w => word (unqW w)
   | e => e
 
 def removeNegate : Test → Test
-  | unary op (unary yop yx) =>
-    if op = tsNot then
-      if yop = tsEmpStr then unary tsNempStr yx
-      else if yop = tsNempStr then unary tsEmpStr yx
-      else if yop = tsNot then yx
-      else unary op (unary yop yx)
-    else unary op (unary yop yx)
-  | unary op (binary yop a b) =>
-    if op = tsNot then
-      if yop = tsMatch then binary tsNoMatch a b
-      else if yop = tsNoMatch then binary tsMatch a b
-      else unary op (binary yop a b)
-    else unary op (binary yop a b)
+  | not (un yop w) =>
+    if yop = tsEmpStr then un tsNempStr w
+    else if yop = tsNempStr then un tsEmpStr w
+    else not (un yop w)
+  | not (not x) => x
+  | not (bin yop a b) =>
+    if yop = tsMatch then bin tsNoMatch a b
+    else if yop = tsNoMatch then bin tsMatch a b
+    else not (bin yop a b)
   | e => e
 
 def noUnquoteRhs (op : Nat) : Bool := op = tsMatch || op = tsNoMatch || op = tsReMatch
@@ -635,18 +654,20 @@ def walk : Nat → Test → Test
   | 0, e => e
   | _, word w => word w
   | f+1, paren x => paren (walk f (removeNegate (strip x)))
-  | f+1, unary op x => unary op (walk f (unquote x))
-  | f+1, binary op x y =>
-    let x' := removeNegate (unquote x)
+  | f+1, not x => not (walk f (unquote x))
+  | _, un op w => un op (unqW w)
+  | f+1, logic c x y => logic c (walk f (removeNegate (unquote x))) (walk f (removeNegate (unquote y)))
+  | _, bin op a b =>
     let op' := if op = tsMatchShort then tsMatch else op
-    let y' := removeNegate (if noUnquoteRhs op' then y else unquote y)
-    binary op' (walk f x') (walk f y')
+    bin op' (unqW a) (if noUnquoteRhs op' then b else unqW b)
 
 def depth : Test → Nat
   | word _ => 1
   | paren x => depth x + 1
-  | unary _ x => depth x + 1
-  | binary _ x y => max (depth x) (depth y) + 1
+  | not x => depth x + 1
+  | un _ _ => 1
+  | logic _ x y => max (depth x) (depth y) + 1
+  | bin _ _ _ => 1
 
 /-- What `Simplify` does to the expression of a `TestClause`. -/
 def top (x : Test) : Test := walk (depth x + 1) (removeNegate (strip x))
@@ -655,12 +676,13 @@ end Test
 
 /-- Abstract `[[ ]]` semantics: strings, emptiness, a pattern-match oracle, opaque other operators. -/
 structure TSem where
-  /-- value of parameter expansion `p` inside double quotes / unquoted (in `[[ ]]` there is no
-      splitting or globbing, but the *word* of `${p:-word}` is processed differently). -/
+  /-- value of parameter expansion `p` inside double quotes (`true`) / unquoted (`false`): in
+      `[[ ]]` there is no splitting or globbing, but the *word* of `${p:-word}` is processed
+      differently in the two forms. -/
   pval : Bool → Nat → Bytes
   /-- value of any other word -/
   wval : Nat → Bytes
-  /-- pattern of any other word on the right of `==`/`!=` (quoted parts literal) -/
+  /-- pattern of any other word on the right of `==`/`!=`/`=~` -/
   wpat : Nat → Bytes × Bool
   /-- `==`: does the string match the pattern; the Bool says whether the pattern text is active
       (unquoted) or literal (quoted) -/
@@ -684,44 +706,36 @@ def pattern : TWord → Bytes × Bool
   | .quoted p => (S.pval true p, false)
   | .other w => S.wpat w
 
-def eval : Test → Option Bool
-  | .word w => some (S.value w ≠ [])
+def eval : Test → Bool
+  | .word w => S.value w != []
   | .paren x => eval x
-  | .unary op x =>
-    if op = tsNot then (eval x).map (!·)
-    else match x with
-      | .word w =>
-        if op = tsEmpStr then some (S.value w = [])
-        else if op = tsNempStr then some (S.value w ≠ [])
-        else some (S.unOp op (S.value w))
-      | _ => none
-  | .binary op x y =>
-    if op = tsAnd then
-      match eval x, eval y with
-      | some a, some b => some (a && b)
-      | _, _ => none
-    else if op = tsOr then
-      match eval x, eval y with
-      | some a, some b => some (a || b)
-      | _, _ => none
-    else match x, y with
-      | .word a, .word b =>
-        if op = tsMatch || op = tsMatchShort then some (S.patMatch (S.pattern b) (S.value a))
-        else if op = tsNoMatch then some (!S.patMatch (S.pattern b) (S.value a))
-        else if op = tsReMatch then some (S.reMatch (S.pattern b) (S.value a))
-        else some (S.binOp op (S.value a) (S.value b))
-      | _, _ => none
+  | .not x => !eval x
+  | .un op w =>
+    if op = tsEmpStr then S.value w == []
+    else if op = tsNempStr then S.value w != []
+    else S.unOp op (S.value w)
+  | .logic c x y => if c then eval x && eval y else eval x || eval y
+  | .bin op a b =>
+    if op = tsMatch || op = tsMatchShort then S.patMatch (S.pattern b) (S.value a)
+    else if op = tsNoMatch then !S.patMatch (S.pattern b) (S.value a)
+    else if op = tsReMatch then S.reMatch (S.pattern b) (S.value a)
+    else S.binOp op (S.value a) (S.value b)
 
 end TSem
+
+def TWord.QuoteInsensitive (S : TSem) : TWord → Prop
+  | .quoted p => S.pval true p = S.pval false p
+  | _ => True
 
 /-- Parameters whose quoted and unquoted values agree (true of `$p`, `${p}`, `${#p}`, `${p[i]}`, …;
     false of e.g. `${p:-'x'}`, `${p:-~}`, `${p:-\x}`). -/
 def Test.QuoteInsensitive (S : TSem) : Test → Prop
-  | .word (.quoted p) => S.pval true p = S.pval false p
-  | .word _ => True
+  | .word w => w.QuoteInsensitive S
   | .paren x => x.QuoteInsensitive S
-  | .unary _ x => x.QuoteInsensitive S
-  | .binary _ x y => x.QuoteInsensitive S ∧ y.QuoteInsensitive S
+  | .not x => x.QuoteInsensitive S
+  | .un _ w => w.QuoteInsensitive S
+  | .logic _ x y => x.QuoteInsensitive S ∧ y.QuoteInsensitive S
+  | .bin _ a b => a.QuoteInsensitive S ∧ b.QuoteInsensitive S
 
 /-! ### B4. Nested subshells: a tiny status/output model -/
 
